@@ -232,7 +232,7 @@ class Source(object):
         line = ""
         line += "{0:30s} {1:9.5f} {2:9.5f} ".format(self.name, self.x, self.y)
         for v in self.valid:
-            line += "{0:1d} ".format(v)
+            line += "{0:1d} ".format(int(v))
         for j in range(self.n_wav):
             line += "{0:11.3e} {1:11.3e} ".format(self.flux[j], self.error[j])
         return line
